@@ -2,7 +2,7 @@ package main
 
 func init() {
 	register(&propDef{ID: "C01", Title: "A floating IP is never held by two live pods",
-		Explanation: "Decides the mechanisms uniqueness rests on, on every path: (R1) the two tables, the pool list and the guarded fields of table-resident objects are accessed only under cacheLock (lockset engine, W for writes); (R2) an object enters the allocated table only after the Create of that very object succeeded; (R3) store-client errors (AlreadyExists included) are returned by the store wrappers; (R4) every IPAM mutator call made by the scheduler plugin has the per-pod key-mutex class held along the call chain from every entry point (one listed exception: Preempt); (R5) in allocateIP a stored UID that differs from the pod's UID ends in an error return before any assign/mutator. Does not decide that these mechanisms suffice under every interleaving, nor restart behaviour.",
+		Explanation: "Decides the mechanisms uniqueness rests on, on every path: (R1) the two tables, the pool list and the guarded fields of table-resident objects are accessed only under cacheLock (lockset engine, W for writes); (R2) an object enters the allocated table only after the Create of that very object succeeded; (R3) store-client errors (AlreadyExists included) are returned by the store wrappers; (R4) every IPAM mutator call made by the scheduler plugin has the per-pod key-mutex class held along the call chain from every entry point (one listed exception: Preempt); (R5) in allocateIP a stored UID that differs from the pod's UID ends in an error return before any assign/mutator; (R6) the release API and resync free an IP only behind the not-running and key-unchanged edges, with a fail-safe liveness test, deciding on the record re-read under the pod lock; (R7) release events are queued only for deleted, finished or no-longer-existing pods (an IP freed under a live pod would be handed to a second one). Does not decide that these mechanisms suffice under every interleaving, nor restart behaviour.",
 		Assumptions: []string{"locks identified by (struct type, field); hashed key mutexes treated as one class per pool", "CFG paths, no feasibility reasoning"},
 		Run: func(c *Ctx) {
 			c.Rule("C01.R1", "tables only under the cache lock", 25)
@@ -15,6 +15,13 @@ func init() {
 			rulePodLockAtMutators(c, "C01.R4")
 			c.Rule("C01.R5", "UID guard in allocateIP", 3)
 			ruleUIDGuard(c, "C01.R5")
+			c.Rule("C01.R6", "asynchronous releasers free an ip only behind 'not running' and 'key unchanged', deciding on the re-read record", 12)
+			ruleReleasers(c, "C01.R6", "reread")
+			ruleReleasers(c, "C01.R6", "guards")
+			ruleReleasers(c, "C01.R6", "fresh")
+			ruleLivenessFailSafe(c, "C01.R6")
+			c.Rule("C01.R7", "release events are queued only for pods that are gone or finished", 4)
+			ruleReleaseEventsQueued(c, "C01.R7")
 		}})
 }
 
